@@ -7,7 +7,8 @@ import "github.com/couchbase/nitro/skiplist"
 func H_C02_seq() {
 	cfg, c := vConfig()
 	db := NewWithConfig(cfg)
-	ws := vWriters(db, 2)
+	nw := vBound("writers")
+	ws := vWriters(db, nw)
 	nops := vBound("ops")
 	var model vSetModel
 	var snaps [8]*Snapshot
@@ -19,7 +20,7 @@ func H_C02_seq() {
 	var hkey [12]int
 	nh := 0
 	for i := 0; i < nops; i++ {
-		w := ws[vChoice("w", i, 2)]
+		w := ws[vChoice("w", i, nw)]
 		switch vChoice("op", i, 6) {
 		case 0: // Put2
 			k, v := vByte("key", i), vByte("val", i)
